@@ -690,7 +690,10 @@ def d2_limits(ctx, idx):
             r.check(ok and classes == {'SummationError'}, construct + ' [class]', 'raises SummationError',
                     'the refusal raises %s instead of the student-facing SummationError' % sorted(classes), where,
                     expected='SummationError', found=', '.join(sorted(classes)))
-            r.check(X.dominates(fi, st, ps), construct + ' [before the summation]', 'dominates perform_summation',
+            top = st
+            for a_ in [x for x in _enclosing_ifs(st, fn)]:
+                top = a_
+            r.check(X.dominates(fi, top, ps), construct + ' [before the summation]', 'dominates perform_summation',
                     'the summation can run before/without this check', where)
 
         # (a) summation variable in scope
@@ -728,11 +731,15 @@ def d2_limits(ctx, idx):
                          % label, fi.loc, expected="abs(%s) != float('inf') and int(%s) != %s" % (label, label, label), understood=understood)
                 continue
             st = cands[0]
+            conj = _path_condition(st, fn)
+            eff = nf.canon(ast.BoolOp(op=ast.And(), values=conj)) if len(conj) > 1 else st.test
             pats = ["abs(%s) != float('inf') and int(%s) != %s" % (V, V, V), "abs(%s) != float('inf') and %s %% 1 != 0" % (V, V),
                     "abs(%s) != float('inf') and not float(%s).is_integer()" % (V, V),
                     "%s != float('inf') and %s != -float('inf') and int(%s) != %s" % (V, V, V, V)]
-            res = nf.classify(pats, st.test)
-            verdict(r, construct, res, lib.loc(fi, st), short(st.test), expected=pats[0].replace(V, label),
+            res = nf.classify(pats, eff)
+            if res != nf.MATCH and eff is not st.test:
+                res = None          # a nested form that is not one of the reference shapes: not compared textually
+            verdict(r, construct, res, lib.loc(fi, st), short(eff), expected=pats[0].replace(V, label),
                     why='infinite limits must pass this test (int(inf) raises OverflowError) and every finite non-integer must fail it')
             refusal(construct, st, '')
         # (d) cutoff
@@ -777,6 +784,31 @@ def d2_limits(ctx, idx):
                 'SummationError no longer descends from StudentFacingError: limit errors are not shown to the student', se.loc)
 
 
+def _enclosing_ifs(st, fn):
+    """The if statements around st, innermost first (the decision the statement's path condition is read from)."""
+    p_ = parent(st)
+    while p_ is not None and p_ is not fn:
+        if isinstance(p_, ast.If):
+            yield p_
+        elif not isinstance(p_, ast.If):
+            return
+        p_ = parent(p_)
+
+
+def _path_condition(st, fn):
+    """The tests of the enclosing if statements (negated on their else side) followed by the statement's own test."""
+    conj = [st.test]
+    node, p_ = st, parent(st)
+    while p_ is not None and p_ is not fn:
+        if isinstance(p_, ast.If):
+            if any(node is x for x in p_.body):
+                conj.insert(0, p_.test)
+            elif any(node is x for x in p_.orelse):
+                conj.insert(0, ast.UnaryOp(op=ast.Not(), operand=p_.test))
+        node, p_ = p_, parent(p_)
+    return conj
+
+
 def _split_ifexp(assign):
     """`x = a if c else b`  ->  `if c: x = a  else: x = b` (so that the decision paths split on c)."""
     v = assign.value
@@ -808,7 +840,7 @@ def _cutoff(r, fi, ps, F):
         return
     # read the whole function as a decision tree (locals substituted forward) and look at the returning paths only: their
     # guards are the cutoff decision plus the negations of the refusals, which do not concern this clause
-    paths = [p for p in nf.decision_paths(fn.body) if p.leaf.kind == 'ret']
+    paths = [p for p in nf.decision_paths(fn.body, keep_locals=tuple(fi.params)) if p.leaf.kind == 'ret']
 
     def value(p):
         calls = [c for c in ast.walk(p.leaf.expr) if isinstance(c, ast.Call) and nf.callee_name(c) == 'perform_summation']
@@ -819,38 +851,57 @@ def _cutoff(r, fi, ps, F):
             return v                    # resolved by the caller
         return v
 
+    subjects = {}           # name of the collection whose members are tested -> the test
+
+    def subject(x, e):
+        """x is a plain local/parameter name (the set that is searched for the factorial names)."""
+        if isinstance(x, ast.Name) and set_literal(x) is None:
+            subjects.setdefault(x.id, e)
+            return True
+        return False
+
     def member(e):
-        """'fact'/'factorial' if e is `'<name>' in F`."""
+        """'fact'/'factorial' if e is `'<name>' in <subject>`."""
         if isinstance(e, ast.Compare) and len(e.ops) == 1 and isinstance(e.ops[0], (ast.In, ast.NotIn)) \
-                and isinstance(e.left, ast.Constant) and isinstance(e.left.value, str) and X.is_name(e.comparators[0], F):
+                and isinstance(e.left, ast.Constant) and isinstance(e.left.value, str) and subject(e.comparators[0], e):
             return e.left.value, isinstance(e.ops[0], ast.In)
         return None
 
-    def set_literal(e):
-        if isinstance(e, (ast.Set, ast.List, ast.Tuple)) and all(isinstance(x, ast.Constant) for x in e.elts):
+    def set_literal(e, depth=0):
+        if isinstance(e, (ast.Set, ast.List, ast.Tuple)) and e.elts and all(isinstance(x, ast.Constant) for x in e.elts):
             return {x.value for x in e.elts}
-        if isinstance(e, ast.Call) and isinstance(e.func, ast.Name) and e.func.id in ('set', 'frozenset') and len(e.args) == 1:
-            return set_literal(e.args[0])
-        return None
+        if isinstance(e, ast.Call) and isinstance(e.func, ast.Name) and e.func.id in ('set', 'frozenset', 'tuple', 'list') and len(e.args) == 1:
+            return set_literal(e.args[0], depth)
+        if depth > 2:
+            return None
+        # a module- or class-level constant bound once
+        v = None
+        if isinstance(e, ast.Name) and e.id not in _local_names(fn) and e.id not in fi.params:
+            vals = fi.module.assigns.get(e.id, [])
+            v = vals[0] if len(vals) == 1 else None
+        elif isinstance(e, ast.Attribute) and isinstance(e.value, ast.Name) and fi.cls is not None and (
+                e.value.id in ('self', 'cls') or e.value.id == fi.cls.name):
+            v = fi.cls.attrs.get(e.attr)
+        return set_literal(v, depth + 1) if v is not None else None
 
     def atom(e):
         mb = member(e)
         if mb is not None:
             name, pos = mb
             return lambda w, name=name, pos=pos: (name in w['used']) == pos
-        # F & {...} / {...} & F / F.intersection({...}) / not F.isdisjoint({...})
+        # S & {...} / {...} & S / S.intersection({...}) / not S.isdisjoint({...}), either way round
         if isinstance(e, ast.BinOp) and isinstance(e.op, ast.BitAnd):
             for x, y in ((e.left, e.right), (e.right, e.left)):
-                if X.is_name(x, F) and set_literal(y) is not None:
+                if set_literal(y) is not None and subject(x, e):
                     lit = set_literal(y)
                     return lambda w, lit=lit: bool(w['used'] & lit)
-        if isinstance(e, ast.Call) and isinstance(e.func, ast.Attribute) and X.is_name(e.func.value, F) and len(e.args) == 1 \
-                and set_literal(e.args[0]) is not None:
-            lit = set_literal(e.args[0])
-            if e.func.attr == 'intersection':
-                return lambda w, lit=lit: bool(w['used'] & lit)
-            if e.func.attr == 'isdisjoint':
-                return lambda w, lit=lit: not (w['used'] & lit)
+        if isinstance(e, ast.Call) and isinstance(e.func, ast.Attribute) and len(e.args) == 1 and e.func.attr in ('intersection', 'isdisjoint'):
+            for x, y in ((e.func.value, e.args[0]), (e.args[0], e.func.value)):
+                if set_literal(y) is not None and subject(x, e):
+                    lit = set_literal(y)
+                    if e.func.attr == 'intersection':
+                        return lambda w, lit=lit: bool(w['used'] & lit)
+                    return lambda w, lit=lit: not (w['used'] & lit)
         return None
     guards = X.Guards(atom)
     bad = None
@@ -898,6 +949,23 @@ def _cutoff(r, fi, ps, F):
         if key != want:
             bad = (sorted(used), key, want)
             break
+    foreign = [n for n in subjects if n != F]
+    if foreign:
+        n = foreign[0]
+        test = short(subjects[n])
+        if n == 'funcscope':
+            r.violation(construct, "the factorial test `%s` searches `funcscope` - every function AVAILABLE to the expressions, which holds "
+                        "fact and factorial by default - instead of the functions the sum actually USES (`%s`, third result of "
+                        "get_limits_and_funcs): config['infty_val_fact'] is chosen for every sum, so sums without factorials are "
+                        "truncated at the small factorial cutoff" % (test, F), lib.loc(fi, ps),
+                        expected="the test applied to `%s`" % F, found='funcscope')
+        elif n in fi.params:
+            r.violation(construct, "the factorial test `%s` searches the parameter `%s`, not the set of functions used by the sum (`%s`, "
+                        "third result of get_limits_and_funcs)" % (test, n, F), lib.loc(fi, ps), expected="the test applied to `%s`" % F, found=n)
+        else:
+            r.undecided(construct, 'the factorial test `%s` searches `%s`, whose relation to the used functions `%s` is not recognised'
+                        % (test, n, F), lib.loc(fi, ps))
+        return
     if bad:
         r.violation(construct, "when the used functions are %s the cutoff is config[%r], the property needs config[%r]: %s"
                     % (bad[0], bad[1], bad[2], 'factorials overflow long before the plain cutoff' if bad[2] == 'infty_val_fact'
@@ -1720,7 +1788,14 @@ def d5_pure(ctx, idx):
 
 
 # ------------------------------------------------------------------------ self-test
+_W5I_CONST = ('# default changed to 1e-12\n        })\n', "# default changed to 1e-12\n        })\n\n    factorial_functions = frozenset(['fact', 'factorial'])\n")
+_W5I_LIMITS = ("        # Check to ensure that sum limits are not complex.\n        if isinstance(lower, complex) or isinstance(upper, complex):\n            raise SummationError('Summation limits must be real but have evaluated '\n                                 'to complex numbers.')\n\n        # Check to ensure that sum limits are integers or infinite\n        if abs(lower) != float('inf') and int(lower) != lower:\n            raise SummationError('Lower summation limit does not evaluate to an integer.')\n        if abs(upper) != float('inf') and int(upper) != upper:\n            raise SummationError('Upper summation limit does not evaluate to an integer.')\n\n", '        self.validate_limits(lower, upper)\n\n')
+_W5I_CUTOFF = ("        # Check if used_funcs includes a factorial function\n        if 'fact' in used_funcs or 'factorial' in used_funcs:\n            infty_val = self.config['infty_val_fact']\n        else:\n            infty_val = self.config['infty_val']\n\n        # Compute the sum\n        result = self.perform_summation(eval_summand, lower, upper, self.config['even_odd'], infty_val)\n        \n",
+               "        # Compute the sum\n        result = self.perform_summation(eval_summand, lower, upper,\n                                        self.config['even_odd'],\n                                        self.infinity_cutoff(%s))\n\n")
+_W5I_METHODS = ('    @staticmethod\n    def perform_summation(eval_summand, lower, upper, even_odd, infty_val=1e3):\n', '    @staticmethod\n    def validate_limits(lower, upper):\n        """\n        Ensure that the evaluated limits of a sum are real, and are either\n        integers or infinite. Raises SummationError otherwise.\n        """\n        limits = ((\'Lower\', lower), (\'Upper\', upper))\n\n        # Check to ensure that sum limits are not complex.\n        if any(isinstance(value, complex) for _, value in limits):\n            raise SummationError(\'Summation limits must be real but have evaluated \'\n                                 \'to complex numbers.\')\n\n        # Check to ensure that sum limits are integers or infinite\n        for name, value in limits:\n            if abs(value) == float(\'inf\'):\n                continue\n            if int(value) != value:\n                msg = \'{} summation limit does not evaluate to an integer.\'\n                raise SummationError(msg.format(name))\n\n    def infinity_cutoff(self, funcs):\n        """\n        Returns the number that stands in for infinity in the limits of a sum\n        that makes use of the functions named in funcs. Factorials grow so\n        quickly that they need a much smaller cutoff than everything else.\n        """\n        if self.factorial_functions.isdisjoint(funcs):\n            return self.config[\'infty_val\']\n        return self.config[\'infty_val_fact\']\n\n    @staticmethod\n    def perform_summation(eval_summand, lower, upper, even_odd, infty_val=1e3):\n')
+
 MUTANTS = [
+    Mutant('cutoff-helper-given-function-scope', IG, [_W5I_CONST, _W5I_LIMITS, (_W5I_CUTOFF[0], _W5I_CUTOFF[1] % 'funcscope'), _W5I_METHODS], None, 'D2'),
     Mutant('upper-not-inclusive', IG, "range(int(lower), int(upper + 1), delta)", "range(int(lower), int(upper), delta)", 'D1'),
     Mutant('swap-removed', IG, "        if lower > upper:\n            lower, upper = upper, lower\n", "", 'D1'),
     Mutant('swap-inverted', IG, "        if lower > upper:\n            lower, upper = upper, lower\n", "        if lower < upper:\n            lower, upper = upper, lower\n", 'D1'),
@@ -1791,6 +1866,7 @@ MUTANTS = [
 ]
 
 BENIGN = [
+    Benign('limit-checks-and-cutoff-in-helpers', IG, [_W5I_CONST, _W5I_LIMITS, (_W5I_CUTOFF[0], _W5I_CUTOFF[1] % 'used_funcs'), _W5I_METHODS], None),
     Benign('reserved-names-as-one-union', IG, "        if varname in self.functions or varname in self.random_funcs or varname in self.constants:",
            "        if varname in set(self.functions) | set(self.random_funcs) | set(self.constants):"),
     Benign('gap-test-by-symmetric-difference', IG, "        if used_positions_set != set(range(1, len(used_positions_set) + 1)):", "        if used_positions_set ^ set(range(1, len(used_positions_set) + 1)):"),
